@@ -27,7 +27,7 @@ RULE = ("continuous and grid worlds, wrapping and not; 0-8 agents on a coarse la
         "; also: continuous extents in (0,1), rejected duplicate placements between queries, wrap_env reassigned, worlds that are not model.environment, model lifecycle ops, agents carrying own components incl. a PositionComponent subclass with another location, agents that are environments themselves, stretches of the history issued from inside a running timestep, grid worlds with agents on half-cell positions, infinite leeways")
 COMPONENTS = {"real": ["ECAgent.Environments.SpaceWorld.get_agents_at", "add_agent / move / move_to / remove_agent"],
               "stub": ["agents are plain ECAgent agents created by the harness"]}
-PROBES = ["axis_leeway_larger", "general_leeway_larger", "negative_leeway", "empty_answer", "coincident_agents",
+PROBES = ["integer_leeway_beyond_the_float_range", "axis_leeway_larger", "general_leeway_larger", "negative_leeway", "empty_answer", "coincident_agents",
           "query_outside_world", "seam_crossing_box", "agent_on_face", "wrap_world", "moved_since_placement", "rejected_duplicate_add", "model_lifecycle_op", "wrap_mode_switched", "agent_with_position_subclass_component", "agent_is_an_environment", "ops_from_inside_a_timestep",
           "grid_world_with_half_cell_positions", "infinite_leeway", "history_continued_on_a_copy", "leeways_left_to_their_defaults"]
 TECHNIQUE = "deterministic simulation: positional queries inside seeded move/remove histories vs an exact geometric filter (seam-aware in wrapping worlds)"
@@ -56,6 +56,8 @@ def gen_leeways(rng, ref):
         out.append(rng.choice([0, 0, g, g + step, max(g - step, 0), -step, 4 * step, step]))
     if rng.random() < 0.06:
         out[rng.randrange(4)] = "inf"        # "the whole axis": an infinite leeway is a float like any other
+    elif ref.den == 1 and rng.random() < 0.05:
+        out[rng.randrange(4)] = "huge"       # ... and so is, in a grid world, an integer beyond the range of floats
     return out
 
 
@@ -137,9 +139,11 @@ def execute(sc, ctx):
             continue
         if kind == "query":
             p = [int(c) for c in op["p"]]
-            lw = [math.inf if c == "inf" else int(c) for c in op["l"]]
+            lw = [math.inf if c == "inf" else 10 ** 400 if c == "huge" else int(c) for c in op["l"]]
             if math.inf in lw:
                 ctx.probe("infinite_leeway")
+            if "huge" in op["l"]:
+                ctx.probe("integer_leeway_beyond_the_float_range")
             L = [max(lw[0], lw[1 + ax]) for ax in range(3)]
             want, onface, seam = [], 0, False
             for k, ap in pos.items():
@@ -170,7 +174,7 @@ def execute(sc, ctx):
             got = ctx.expect_ok("get_agents_at", env.get_agents_at, rp[0], rp[1], rp[2], **kw)
             ctx.check(isinstance(got, list), "answer-type", type(got).__name__)
             ids = [a.id for a in got]
-            ctx.event("query", p, lw, ids)
+            ctx.event("query", p, op["l"], ids)
             ctx.check(ids == want, "wrong-answer",
                       lambda: f"get_agents_at{rp} leeways {rl} in {sc['world']} returned {ids}, exact filter {want}; "
                               f"positions { {agents[k].id: get_pos(agents[k]) for k in pos} }")
